@@ -182,7 +182,11 @@ func (y *c15Sys) voters(s *c15State) string {
 	return s.set
 }
 
-func (y *c15Sys) Digest(s *c15State) [32]byte { return s.w.Digest(s.ctx) }
+// the model is part of the state key: a change that turns an operation into a no-op on the stores must
+// not make the successor look like an already visited state (its model differs, and Check has to see it)
+func (y *c15Sys) Digest(s *c15State) [32]byte {
+	return s.w.Digest(s.ctx, []byte(fmt.Sprint(s.set, s.hostH, s.flagOn, s.client)))
+}
 
 // extension bytes for (price variant, included pairs, timestamp)
 func (y *c15Sys) ext(s *c15State, price int64, pairs []string, ts int64) []byte {
